@@ -21,7 +21,13 @@
 // names are unusual but legal - empty, blank, prefixes of each other, equal to topics, differing in case only, hostile
 // strings - and whose chains differ: some handlers carry handler-level middlewares that change the outcome, others carry
 // none, some are added to the running Router and started by RunHandlers; a message's settlement must follow the chain of
-// its own handler = router-level middlewares + the middlewares added to THAT handler + its function).
+// its own handler = router-level middlewares + the middlewares added to THAT handler + its function);
+// topics-matrix/<scheme>, topics-end/<scheme>, random-topics/<scheme> (1..4 handlers whose subscribe / publish topics are
+// unusual but legal wiring values: "" as publish topic of a handler with a real publisher - what gochannel.FanOut
+// builds -, "" as subscribe topic, topics equal across handlers, publish topic equal to the subscribe topic, blank,
+// nearly equal, very long and hostile strings, topics equal to handler names; the same wiring values are also drawn
+// for a fifth of the cases of the random classes above). The scripted publisher records the topic argument of every
+// call: a Publish call made for a message is judged including the exact topic string (clause publish-topic).
 // The oracle is the same for all classes.
 package c02
 
@@ -497,6 +503,235 @@ func namesCase(e *vlib.Env, cell *nameCell) config {
 // The switch does not change the case list otherwise (the draw is made in either case).
 const nameReuseEnabled = true
 
+// ---- class "topics": unusual but legal wiring values (subscribe / publish topics)
+
+// how the topics of the handlers are chosen. AddHandler takes any two strings: the Router hands the subscribe topic to
+// Subscriber.Subscribe and the publish topic to Publisher.Publish and does not interpret them ("" included: publishers
+// that route by metadata ignore the argument, and gochannel.FanOut builds handlers with publish topic "" inside the library).
+var topicSchemes = []string{
+	"pub-empty",  // publish topic "" with a real publisher (handler 0; the others with probability 1/2)
+	"sub-empty",  // subscribe topic ""
+	"both-empty", // both "" (handler 0; the others with probability 1/2)
+	"all-empty",  // every handler subscribes to "" and publishes to ""
+	"pub-eq-sub", // a handler publishes to the topic it subscribes to
+	"cross",      // handler k publishes to the topic handler k+1 subscribes to (the last one to the topic of the first)
+	"all-equal",  // one topic name for every subscribe and every publish topic of the Router
+	"blank",      // topics made of white space only
+	"near",       // topics that differ in letter case, a leading / trailing blank, NUL, newline or slash only
+	"long",       // 255 B .. 1 MiB topics that differ in their last bytes only
+	"hostile",    // printf verbs, NUL, control characters, wildcards, paths, invalid UTF-8, random UTF-8
+	"name",       // topics equal to the name of the handler itself or of another handler
+	"mixed",      // each handler draws its own scheme
+}
+
+func short(s string) string {
+	if len(s) <= 96 {
+		return s
+	}
+	return fmt.Sprintf("%s...(%d bytes)...%s", s[:48], len(s), s[len(s)-24:])
+}
+
+// applyWiring replaces the topics of the handlers of cfg by topics drawn by scheme. Handlers that share a subscriber
+// instance and would subscribe to one topic name get subscriber instances of their own (the harness finds the
+// subscription of a handler by subscriber instance + topic).
+func applyWiring(cfg *config, r *vlib.Rand, id, scheme string) {
+	cfg.normalize(id)
+	nh := len(cfg.Handlers)
+	in, out, names := make([]string, nh), make([]string, nh), make([]string, nh)
+	for k := range cfg.Handlers {
+		in[k], out[k], names[k] = cfg.topicIn(id, k), cfg.topicOut(id, k), cfg.hname(id, k)
+	}
+	T := id + ".t"
+	longLen := []int{255, 256, 1024, 4096, 65535, 65536, 65537, 1 << 18, 1 << 20, 300}[r.Intn(10)]
+	longBase := id + "." + strings.Repeat([]string{"x", "é", "/", "%s"}[r.Intn(4)], longLen)
+	var one func(sch string, k int, odd bool) (string, string)
+	one = func(sch string, k int, odd bool) (string, string) {
+		if !odd {
+			return in[k], out[k]
+		}
+		switch sch {
+		case "pub-empty":
+			return in[k], ""
+		case "sub-empty":
+			return "", out[k]
+		case "both-empty", "all-empty":
+			return "", ""
+		case "pub-eq-sub":
+			return in[k], in[k]
+		case "cross":
+			return T + strconv.Itoa(k), T + strconv.Itoa((k+1)%nh)
+		case "all-equal":
+			return T, T
+		case "blank":
+			b := []string{" ", "  ", "\t", "\n", "\u00a0", " \t ", "\r\n"}
+			return b[r.Intn(len(b))], b[r.Intn(len(b))]
+		case "near":
+			t := id + ".Topic"
+			v := []string{t, strings.ToLower(t), strings.ToUpper(t), t + " ", " " + t, t + "\x00", t + "\n", t + "/", t + ".", t + "\x00x"}
+			return v[r.Intn(len(v))], v[r.Intn(len(v))]
+		case "long":
+			if r.Chance(0.3) {
+				return longBase + ".in" + strconv.Itoa(k), longBase + ".in" + strconv.Itoa(k)
+			}
+			return longBase + ".in" + strconv.Itoa(k), longBase + ".out" + strconv.Itoa(k)
+		case "hostile":
+			h := []string{"%s", "%d%n%!v(MISSING)", "%!s(MISSING)", "\x00", "a\x00b", "*", "#", ">", ".", "..", "../../etc/passwd", "/", "//", "topic with spaces",
+				"\xff\xfe", "\xe2\x80\x8b", `"`, "'; DROP TABLE messages;--", "{{.}}", "$1", "\r\n", "-", "nil", "<nil>", "0", r.UTF8(8), r.UTF8(64), id + "%", id + "\x00"}
+			return h[r.Intn(len(h))], h[r.Intn(len(h))]
+		case "name":
+			return names[[]int{k, (k + 1) % nh}[r.Intn(2)]], names[[]int{k, (k + 1) % nh}[r.Intn(2)]]
+		default: // mixed
+			return one(topicSchemes[r.Intn(len(topicSchemes)-1)], k, true)
+		}
+	}
+	cfg.Wiring = scheme
+	for k := range cfg.Handlers {
+		h := &cfg.Handlers[k]
+		odd := k == 0 || r.Bool()
+		switch scheme {
+		case "all-empty", "all-equal", "cross", "long":
+			odd = true
+		}
+		h.In, h.Out = one(scheme, k, odd)
+		h.Wired = true
+		h.Desc = fmt.Sprintf("%q -> %q", short(h.In), short(h.Out))
+	}
+	seen := map[string]bool{}
+	conflict := false
+	for _, h := range cfg.Handlers {
+		key := strconv.Itoa(h.Sub) + "\x00" + h.In
+		conflict = conflict || seen[key]
+		seen[key] = true
+	}
+	if conflict {
+		cfg.Subs = nil
+		for k := range cfg.Handlers {
+			cfg.Handlers[k].Sub = k
+			cfg.Subs = append(cfg.Subs, id)
+		}
+	}
+}
+
+// sprinkle gives a fifth of the cases of the earlier random classes unusual topics (drawn after everything else of the
+// configuration, so the rest of the case list is what it was).
+func sprinkle(e *vlib.Env, cfg config) config {
+	if e.R.Chance(0.2) {
+		applyWiring(&cfg, e.R, e.ID(), topicSchemes[e.R.Intn(len(topicSchemes))])
+	}
+	return cfg
+}
+
+type topicCell struct {
+	Scheme string
+	Kind   string // kind of handler 0
+	P      int    // behaviour of its publisher instance
+	End    string // "": two handlers, the messages finish while the Router is running; otherwise one handler whose subscription ends
+	Hold   string
+	H      int
+}
+
+var topicCells = func() []topicCell {
+	var cs []topicCell
+	for _, sch := range topicSchemes {
+		for p := 0; p < 3; p++ { // accept, error, panic-str
+			cs = append(cs, topicCell{Scheme: sch, Kind: kindPub, P: p})
+		}
+		cs = append(cs, topicCell{Scheme: sch, Kind: kindNilPub}, topicCell{Scheme: sch, Kind: kindNoPub})
+		for _, end := range endModes {
+			for j, hold := range []string{holdPost, holdPublish} {
+				for p := 0; p < 2; p++ {
+					cs = append(cs, topicCell{sch, kindPub, p, end, hold, 2 + (j+p)%2}) // ret-1 / ret-3
+				}
+			}
+		}
+	}
+	return cs
+}()
+
+// handler behaviours every handler of a topics-matrix case gets: ret-1, ret-3, err+1, ret-nil, panic-str, nack-ok1, ack-ok1
+var topicProbes = []int{2, 3, 5, 0, 9, 18, 13}
+
+func topicsCase(e *vlib.Env, cell *topicCell) config {
+	r := e.R
+	id := e.ID()
+	if cell != nil && cell.End != "" {
+		cfg := config{Class: "topics-end/" + cell.Scheme, Kind: cell.Kind, End: cell.End, Keep: r.Bool(), SubDecos: r.Intn(2)}
+		for i := r.Intn(3); i > 0; i-- {
+			cfg.Specs = append(cfg.Specs, mspec{H: r.Intn(len(hbehs)), P: r.Intn(len(pbehs)), Y1: r.Intn(3), Y2: r.Intn(3)})
+		}
+		cfg.Specs = append(cfg.Specs, mspec{H: cell.H, P: cell.P, Hold: cell.Hold, Y1: r.Intn(3), Y2: r.Intn(3)})
+		applyWiring(&cfg, r, id, cell.Scheme)
+		return cfg
+	}
+	if cell == nil && r.Chance(0.25) {
+		// one handler whose subscription ends while messages are in flight
+		cfg := randomSingle(r)
+		scheme := topicSchemes[r.Intn(len(topicSchemes))]
+		cfg.Class = "random-topics/" + scheme
+		cfg.Barrier = false
+		cfg.End = endModes[r.Intn(len(endModes))]
+		cfg.Keep = r.Bool()
+		cfg.SubDecos = r.Intn(3)
+		if len(cfg.Specs) > 6 {
+			cfg.Specs = cfg.Specs[:6]
+		}
+		for i := range cfg.Specs {
+			cfg.Specs[i].Hold = []string{holdNone, holdPre, holdPost, holdPublish, holdPublish}[r.Intn(5)]
+		}
+		if last := &cfg.Specs[len(cfg.Specs)-1]; last.Hold == holdNone {
+			last.Hold = []string{holdPre, holdPost}[r.Intn(2)]
+		}
+		applyWiring(&cfg, r, id, scheme)
+		return cfg
+	}
+	var cfg config
+	if cell != nil {
+		kinds := []string{cell.Kind, kindPub}
+		switch x := r.Intn(10); {
+		case x == 8:
+			kinds[1] = kindNilPub
+		case x == 9:
+			kinds[1] = kindNoPub
+		}
+		pm := pubModes[r.Intn(len(pubModes))]
+		cfg = config{Class: "topics-matrix/" + cell.Scheme, PubMode: pm, SubDecos: r.Intn(2), YieldP: []float64{0, 0.1, 0.3}[r.Intn(3)], Barrier: r.Chance(0.3)}
+		if r.Bool() {
+			cfg.MW = randomMW(r)
+		}
+		if kinds[0] != kindNilPub && kinds[1] != kindNilPub && r.Chance(0.3) {
+			cfg.PubDecos = []string{[]string{"transform", "wrap"}[r.Intn(2)]}
+		}
+		buildMulti(&cfg, id, kinds, pm, r.Intn(3), func(j int) string {
+			if j == 0 && cell.Kind == kindPub {
+				return pbehs[cell.P]
+			}
+			return ""
+		})
+		for hd := range kinds {
+			hs := append(append([]int{}, topicProbes...), r.Intn(len(hbehs)))
+			for _, h := range hs {
+				s := mspec{H: h, P: r.Intn(len(pbehs)), Hd: hd, Y1: r.Intn(3), Y2: r.Intn(3)}
+				if r.Chance(0.6) {
+					s.P = 0
+				}
+				if kinds[hd] == kindNoPub && hbehs[s.H].Outs != -1 {
+					s.H = hbehsNoOut[r.Intn(len(hbehsNoOut))]
+				}
+				cfg.Specs = append(cfg.Specs, s)
+			}
+		}
+		applyWiring(&cfg, r, id, cell.Scheme)
+		return cfg
+	}
+	scheme := topicSchemes[r.Intn(len(topicSchemes))]
+	cfg = randomMulti(r, id, 1)
+	cfg.Class = "random-topics/" + scheme
+	applyWiring(&cfg, r, id, scheme)
+	return cfg
+}
+
+func topicsRandomCases(tier string) int { return vlib.TierN(tier, 800, 30000) }
+
 func namesRandomCases(tier string) int { return vlib.TierN(tier, 800, 30000) }
 
 func oldRandomCases(tier string) int   { return vlib.TierN(tier, 2000, 500000) }
@@ -509,7 +744,7 @@ func init() {
 		Level: "fault_enumeration",
 		Cases: func(tier string) int {
 			return matrixCases() + oldRandomCases(tier) + len(endCells) + len(multiCells) + endRandomCases(tier) + multiRandomCases(tier) +
-				len(nameCells) + namesRandomCases(tier)
+				len(nameCells) + namesRandomCases(tier) + len(topicCells) + topicsRandomCases(tier)
 		},
 		Rule: fmt.Sprintf("matrix part: %d cells = {%d handler behaviours: returns nil/empty/1/3 messages, error, error+1/3 messages, panic(string|error|nil), "+
 			"context.Canceled (bare/wrapped), Ack-then-{ok,ok+msg,err,err+msg,panic}, Nack-then-{ok,ok+1/3 msgs,err,err+msg,panic}, Ack-then-Nack} x {publisher: accept,error,panic(string),panic(nil),error on the first call for a message only} x "+
@@ -534,11 +769,20 @@ func init() {
 			"after their handler / after all handlers} x {all handlers started by Run, one handler added to the running Router and started by RunHandlers} x handler kinds x publisher modes; every handler "+
 			"gets messages whose outcome the middlewares of the OTHER handlers would change (returns 1 message, error+1 message, panic, nothing, error); a message is judged against the chain of its own "+
 			"handler = router-level middlewares + the middlewares added to that handler + its function, and each scripted middleware records the messages it is invoked with. "+
+			"Class topics (%d enumerated cells + random part; the same draw is also applied to 1/5 of the cases of the random parts of the classes above): the subscribe / publish topics given to AddHandler are "+
+			"unusual but legal wiring values = {publish topic \"\" with a real publisher (what gochannel.FanOut builds), subscribe topic \"\", both \"\", every topic of the Router \"\", publish topic = own subscribe topic, "+
+			"publish topic = subscribe topic of the next handler (ring), one name for every topic of the Router, white space only, names differing in letter case / a leading or trailing blank / NUL / newline / slash only, "+
+			"255 B..1 MiB names differing in their last bytes only, hostile strings (printf verbs, NUL, control characters, wildcards, paths, invalid UTF-8, random UTF-8), topics equal to the name of the handler itself or "+
+			"of another handler, a mix}; enumerated cells: scheme x {2 handlers on one Router, handler 0 = AddHandler with an accepting / rejecting / panicking publisher, AddHandler with a nil publisher, "+
+			"AddNoPublisherHandler; every handler gets messages that return 1 / 3 messages, error+1 message, nothing, panic, Nack-then-1 message, Ack-then-1 message and a random one} + scheme x {one handler whose subscription "+
+			"ends by Handler.Stop / Router.Close / Run context cancelled / subscriber closing its channel} x {message held after its own settlement, inside Publish} x {publisher accepts, rejects}; random part: 1..4 handlers "+
+			"of random kinds, publisher modes, decorators, middlewares and behaviours (3/4) or one handler whose subscription ends while 1..6 messages are held at random points (1/4). The scripted publisher records the topic "+
+			"argument of every call; a Publish call made for a message must carry exactly the string its handler was registered with (clause publish-topic, counters publish_calls_topic_compared / publish_calls_to_empty_topic). "+
 			"A case is non-trivial when every emitted message "+
 			"was taken, handled and judged (and, for multi-message barrier cases, >=2 handlers were observed in flight together; for class end, >=1 message was in flight when the subscription "+
 			"ended and the end was observed to have propagated; for classes multi and names, >=2 handlers handled messages; for class names, "+
 			"additionally >=1 handler has an outcome-changing middleware of its own and >=1 has no middleware of its own); distinct = distinct "+
-			"(cell, multiplicity) for the matrices, distinct (class, configuration, per-message behaviours, settlement order) for random batches.", len(cells), len(hbehs), len(mwMatrix), len(endCells), len(multiCells), len(nameCells)),
+			"(cell, multiplicity) for the matrices, distinct (class, configuration, per-message behaviours, settlement order) for random batches.", len(cells), len(hbehs), len(mwMatrix), len(endCells), len(multiCells), len(nameCells), len(topicCells)),
 		Assumptions: []string{
 			"panic(nil) follows the Go >= 1.21 semantics of the harness module (recover() returns *runtime.PanicNilError)",
 			"a message counts as taken by the Router when the scripted subscriber's channel send completed (it was received by the Router's subscriber decorator)",
@@ -549,6 +793,7 @@ func init() {
 			"class names: 'the handler chain' of a message is the chain of the handler whose subscription delivered it: the middlewares given to Router.AddMiddleware, the ones given to that handler's Handler.AddMiddleware (godoc: 'adds new middleware to the specified handler in the router') and its function; all of them are in place before the handler is started (Run / RunHandlers); every scripted middleware calls the inner handler exactly once, so a middleware of the chain that was not entered (chain-middleware-skipped) or a middleware of another handler that was entered (chain-foreign-middleware) means that another chain was invoked; these two clauses are only reported when no clause about settlements / Publish calls fired in the case",
 			"class names: at most one result-changing and at most one self-settling middleware per chain, so that the expected outcome does not depend on the nesting order of middlewares (another property); a settlement made by a middleware of the chain counts as 'a settlement the handler made itself'",
 			"class names: registering a late handler under the name of a handler that was stopped earlier (classes names-reuse/*, clause name-reuse-inherits-middleware) is part of class random-names: the new handler's chain consists of the router-level middlewares, its own and its function only (the pinned Router also wrapped the stopped handler's middlewares around it; fixed in 2434b2b)",
+			"class topics: every string is a legal subscribe / publish topic for the Router (AddHandler godoc: 'subscribeTopic is a topic from which handler will receive messages', 'publishTopic is a topic to which router will produce messages returned by handlerFunc'; neither is interpreted by the Router, and watermill itself registers handlers with publish topic \"\" and a real publisher in gochannel.FanOut); 'accepted by the handler's publisher' is judged on the call Publish(publishTopic, outputs...) with exactly the string given to AddHandler; handlers that subscribe to one topic name get subscriber instances of their own (the harness identifies the subscription of a handler by subscriber instance + topic), publishers may be shared",
 			"class multi: 'the handler's publisher' is the instance passed to AddHandler, seen through whatever decorators the Router was given; publisher decorators used by the harness do not change message values",
 		},
 		Run: run,
@@ -581,6 +826,12 @@ type hspec struct {
 	// StopEarly: the handler gets its messages first and is stopped (Handler.Stop, Stopped() closed) before the late
 	// handlers are added; a late handler may then be registered under the same name
 	StopEarly bool
+
+	// class topics: subscribe / publish topic given to AddHandler when Wired (otherwise names derived from the case id)
+	Wired bool   `json:",omitempty"`
+	In    string `json:"-"`
+	Out   string `json:"-"`
+	Desc  string `json:"topics,omitempty"` // In / Out, shortened
 }
 
 // pspec is one publisher instance.
@@ -618,6 +869,9 @@ type config struct {
 	HOrder     []int // order in which the handlers are registered (nil: 0..n-1); late handlers keep their relative order
 	RMWAt      int   // the router-level middlewares are added after this many handlers have been registered
 	MWGrouped  bool  // handler-level middlewares are added after all (early) handlers have been registered, otherwise right after their handler
+
+	// class topics (and a fifth of the cases of the random classes): scheme the topics were drawn by ("" = ordinary topics)
+	Wiring string
 }
 
 func (c *config) normalize(id string) {
@@ -650,6 +904,9 @@ func (c *config) suffix(k int) string {
 
 // topicIn / topicOut: subscribe and publish topic of handler k (after normalize).
 func (c *config) topicIn(id string, k int) string {
+	if k < len(c.Handlers) && c.Handlers[k].Wired {
+		return c.Handlers[k].In
+	}
 	if c.SameTopics && len(c.Subs) == len(c.Handlers) {
 		return id + ".in"
 	}
@@ -657,6 +914,9 @@ func (c *config) topicIn(id string, k int) string {
 }
 
 func (c *config) topicOut(id string, k int) string {
+	if k < len(c.Handlers) && c.Handlers[k].Wired {
+		return c.Handlers[k].Out
+	}
 	if c.SameTopics {
 		return id + ".out"
 	}
@@ -706,7 +966,7 @@ func run(e *vlib.Env) vlib.Result {
 	}
 	idx -= matrixCases()
 	if idx < oldRandomCases(e.Tier) {
-		return runBatch(e, randomSingle(e.R))
+		return runBatch(e, sprinkle(e, randomSingle(e.R)))
 	}
 	idx -= oldRandomCases(e.Tier)
 	if idx < len(endCells) {
@@ -757,7 +1017,7 @@ func run(e *vlib.Env) vlib.Result {
 		if last := &cfg.Specs[len(cfg.Specs)-1]; last.Hold == holdNone && e.R.Chance(0.7) {
 			last.Hold = []string{holdPre, holdPost}[e.R.Intn(2)]
 		}
-		return runBatch(e, cfg)
+		return runBatch(e, sprinkle(e, cfg))
 	}
 	idx -= endRandomCases(e.Tier)
 	if idx >= multiRandomCases(e.Tier) {
@@ -767,11 +1027,26 @@ func run(e *vlib.Env) vlib.Result {
 			res.Sig = vlib.Sig("names-matrix", idx)
 			return res
 		}
-		return runBatch(e, namesCase(e, nil))
+		idx -= len(nameCells)
+		if idx < namesRandomCases(e.Tier) {
+			return runBatch(e, sprinkle(e, namesCase(e, nil)))
+		}
+		idx -= namesRandomCases(e.Tier)
+		if idx < len(topicCells) {
+			res := runBatch(e, topicsCase(e, &topicCells[idx]))
+			res.Sig = vlib.Sig("topics-matrix", idx)
+			return res
+		}
+		return runBatch(e, topicsCase(e, nil))
 	}
-	// random multi
-	r := e.R
-	nh := r.Range(2, 4)
+	cfg := randomMulti(e.R, e.ID(), 2)
+	cfg.Class = "random-multi/" + cfg.PubMode
+	return runBatch(e, sprinkle(e, cfg))
+}
+
+// randomMulti draws a case with lo..4 handlers on one Router (class random-multi; the caller names the class).
+func randomMulti(r *vlib.Rand, id string, lo int) config {
+	nh := r.Range(lo, 4)
 	kinds := make([]string, nh)
 	for k := range kinds {
 		switch x := r.Intn(10); {
@@ -798,7 +1073,7 @@ func run(e *vlib.Env) vlib.Result {
 			}
 		}
 	}
-	buildMulti(&cfg, e.ID(), kinds, pm, r.Intn(3), func(int) string {
+	buildMulti(&cfg, id, kinds, pm, r.Intn(3), func(int) string {
 		return []string{"", "", "", "accept", "accept", "accept", "error", "error", "panic-str", "panic-nil"}[r.Intn(10)]
 	})
 	for hd := 0; hd < nh; hd++ {
@@ -815,7 +1090,7 @@ func run(e *vlib.Env) vlib.Result {
 	}
 	cfg.Barrier = r.Chance(0.5)
 	cfg.SameTopics = r.Chance(0.3)
-	return runBatch(e, cfg)
+	return cfg
 }
 
 // buildMulti fills in the handlers, publisher instances and subscriber instances of a multi-handler case.
@@ -1543,6 +1818,9 @@ func runBatch(e *vlib.Env, cfg config) (res vlib.Result) {
 	ownNames := map[string]bool{}
 	for k := range cfg.Handlers {
 		ownNames[hname(k)] = true
+		if cfg.Handlers[k].Wired {
+			ownNames[topicIn(k)] = true // the subscriber decorator's hook point reports the topic
+		}
 	}
 
 	ctl := vlib.NewCtl(e.R.Uint64(), cfg.YieldP, 30)
@@ -2019,7 +2297,7 @@ func runBatch(e *vlib.Env, cfg config) (res vlib.Result) {
 	if prs := pubsOf[-1]; len(prs) > 0 {
 		pr := prs[0]
 		if len(pr.uuids) == 0 {
-			res.Fail("publish-empty", "Publish(%q) was called with no messages (call #%d)", pr.topic, pr.no)
+			res.Fail("publish-empty", "Publish(%q) was called with no messages (call #%d)", short(pr.topic), pr.no)
 		} else {
 			res.Fail("publish-unattributed", "Publish call #%d carries messages that are not the outputs of exactly one handled message: %v", pr.no, pr.uuids)
 		}
@@ -2054,7 +2332,7 @@ func runBatch(e *vlib.Env, cfg config) (res vlib.Result) {
 		if i < 4 {
 			mo := msgOut{Hd: spc.Hd, H: h.Name, P: ownBeh, Hold: r.parked, AtEnd: r.atEnd, Want: x.Final, Got: got, AtExit: r.exitState}
 			for _, pr := range prsAll {
-				mo.Pubs = append(mo.Pubs, fmt.Sprintf("publisher %d #%d %s %d msgs -> %s (consumed message: %q at entry, %q before return)", pr.pub, pr.no, pr.topic, len(pr.uuids), pr.outcome, pr.stateIn, pr.stateOut))
+				mo.Pubs = append(mo.Pubs, fmt.Sprintf("publisher %d #%d %s %d msgs -> %s (consumed message: %q at entry, %q before return)", pr.pub, pr.no, short(pr.topic), len(pr.uuids), pr.outcome, pr.stateIn, pr.stateOut))
 			}
 			sample = append(sample, mo)
 		}
@@ -2080,6 +2358,9 @@ func runBatch(e *vlib.Env, cfg config) (res vlib.Result) {
 			}
 			desc += fmt.Sprintf(" [its handler is registered as %q (late: %v) with router-level middlewares %v and own middlewares %v; other handlers: %s; middlewares invoked with the message: %v]",
 				hname(spc.Hd), cfg.Handlers[spc.Hd].Late, cfg.MW, cfg.Handlers[spc.Hd].MW, strings.Join(others, ", "), r.mwTrace)
+		}
+		if cfg.Wiring != "" {
+			desc += fmt.Sprintf(" [topics drawn by scheme %q: its handler subscribes to %q and publishes to %q (handler name %q)]", cfg.Wiring, short(topicIn(spc.Hd)), short(topicOut(spc.Hd)), short(hname(spc.Hd)))
 		}
 		if r.parked != "" {
 			desc += fmt.Sprintf(" [in flight (held at %s) when the subscription ended by %s; state at that moment %q]", r.parked, cfg.End, r.atEnd)
@@ -2141,7 +2422,7 @@ func runBatch(e *vlib.Env, cfg config) (res vlib.Result) {
 				}
 			}
 			if len(pr.uuids) == 0 {
-				res.Fail("publish-empty", "%s: Publish(%q) was called with no messages", desc, pr.topic)
+				res.Fail("publish-empty", "%s: Publish(%q) was called with no messages", desc, short(pr.topic))
 			}
 		}
 		if len(prsAll) > 0 && x.ChainErr {
@@ -2157,8 +2438,14 @@ func runBatch(e *vlib.Env, cfg config) (res vlib.Result) {
 			var concat []string
 			for _, pr := range prs {
 				concat = append(concat, pr.uuids...)
+				// "accepted by the handler's publisher": the call is the one AddHandler's arguments describe, i.e.
+				// Publish(publishTopic, outputs...) with exactly the string the handler was given
+				res.Count("publish_calls_topic_compared", 1)
+				if pr.topic == "" {
+					res.Count("publish_calls_to_empty_topic", 1)
+				}
 				if pr.topic != topicOut(spc.Hd) {
-					res.Fail("publish-topic", "%s: published to %q, handler's publish topic is %q", desc, pr.topic, topicOut(spc.Hd))
+					res.Fail("publish-topic", "%s: published to %q, handler's publish topic is %q", desc, short(pr.topic), short(topicOut(spc.Hd)))
 				}
 				if !pr.valueOK {
 					res.Fail("publish-args", "%s: a published message differs in value from the one the chain returned", desc)
@@ -2337,6 +2624,43 @@ func runBatch(e *vlib.Env, cfg config) (res vlib.Result) {
 		res.Count("handlers_without_own_middleware", plain)
 		res.NonTrivial = res.NonTrivial && changing >= 1 && plain >= 1
 	}
+	if cfg.Wiring != "" {
+		res.Count("cases_with_unusual_topics", 1)
+		res.Count("topics_scheme_"+cfg.Wiring, 1)
+		inN, outN := map[string]int{}, map[string]int{}
+		for k, hs := range cfg.Handlers {
+			inN[topicIn(k)]++
+			if hs.Kind != kindNoPub {
+				outN[topicOut(k)]++
+			}
+		}
+		for k, hs := range cfg.Handlers {
+			ti, to := topicIn(k), topicOut(k)
+			if ti == "" {
+				res.Count("handlers_subscribed_to_empty_topic", 1)
+			}
+			if inN[ti] > 1 {
+				res.Count("handlers_sharing_a_subscribe_topic", 1)
+			}
+			if len(ti) > 1024 || len(to) > 1024 {
+				res.Count("handlers_with_long_topics", 1)
+			}
+			if hs.Kind == kindNoPub {
+				continue
+			}
+			if to == "" && hs.Kind == kindPub {
+				res.Count("handlers_with_publisher_and_empty_publish_topic", 1)
+			}
+			if to == ti {
+				res.Count("handlers_publishing_to_their_subscribe_topic", 1)
+			} else if inN[to] > 0 {
+				res.Count("handlers_publishing_to_another_handlers_subscribe_topic", 1)
+			}
+			if outN[to] > 1 {
+				res.Count("handlers_sharing_a_publish_topic", 1)
+			}
+		}
+	}
 	if k := int(st.pubDecoCalls.Load()); k > 0 {
 		res.Count("publisher_decorator_calls", k)
 	}
@@ -2347,18 +2671,26 @@ func runBatch(e *vlib.Env, cfg config) (res vlib.Result) {
 	for _, s := range cfg.Specs {
 		shape = append(shape, fmt.Sprintf("%d/%d/%d/%s", s.Hd, s.H, s.P, s.Hold))
 	}
-	if nh == 1 && cfg.End == "" {
+	if nh == 1 && cfg.End == "" && cfg.Wiring == "" {
 		shape = shape[:0]
 		for _, s := range cfg.Specs {
 			shape = append(shape, fmt.Sprintf("%d/%d", s.H, s.P))
 		}
 		res.Sig = vlib.Sig("random", cfg.Kind, cfg.MW, cfg.Barrier, shape, order)
 	} else {
-		res.Sig = vlib.Sig(cfg.Class, cfg.Handlers, cfg.Pubs, len(cfg.Subs), cfg.PubDecos, cfg.SubDecos, cfg.SameTopics, cfg.End, cfg.Keep, cfg.MW, cfg.Barrier, shape, order, cfg.NameScheme, cfg.HOrder, cfg.RMWAt, cfg.MWGrouped)
+		res.Sig = vlib.Sig(cfg.Class, cfg.Handlers, cfg.Pubs, len(cfg.Subs), cfg.PubDecos, cfg.SubDecos, cfg.SameTopics, cfg.End, cfg.Keep, cfg.MW, cfg.Barrier, shape, order, cfg.NameScheme, cfg.HOrder, cfg.RMWAt, cfg.MWGrouped, cfg.Wiring)
 	}
 	res.Sample = map[string]any{
 		"kind": cfg.Kind, "middleware": cfg.MW, "messages": n, "barrier": cfg.Barrier, "max_in_flight": st.maxInflight,
 		"settlement_order": order, "first_messages": sample,
+	}
+	if cfg.Wiring != "" {
+		var ts []string
+		for k := range cfg.Handlers {
+			ts = append(ts, cfg.Handlers[k].Desc)
+		}
+		res.Sample.(map[string]any)["topics_scheme"] = cfg.Wiring
+		res.Sample.(map[string]any)["topics"] = ts
 	}
 	if cfg.End != "" {
 		res.Sample.(map[string]any)["subscription_ended_by"] = cfg.End
